@@ -21,6 +21,7 @@ type Contract struct {
 	Props       []string
 	Requires    []*Clause
 	Ensures     []*Clause
+	Assumes     []*Clause // like ensures at call sites, but NOT checked against implementations: a stated assumption
 	Invariants  map[int][]*Clause
 	Decreases   map[int]*Clause
 	Assigns     []*Clause // nil = unspecified; a clause with Text "nothing" = pure
@@ -227,6 +228,11 @@ func (c *Contract) addClause(word, rest string, line int) error {
 			return err
 		}
 		c.Ensures = append(c.Ensures, cl)
+	case "assumes":
+		if err := parseLabeled(rest); err != nil {
+			return err
+		}
+		c.Assumes = append(c.Assumes, cl)
 	case "cover":
 		if err := parseLabeled(rest); err != nil {
 			return err
